@@ -737,3 +737,110 @@ def quoted_sink_rule(crate, syn, prop, rule="C04.R4"):
     r.stats = {"quoted_sinks": n}
     r.floor = 10
     return r
+
+
+def struct_tag_first_rule(crate, prop, rule="C01.R4"):
+    r = Result(rule, "for a struct-level tag (and internally tagged struct variants) named() - helpers and closures included - emits a property `\"<tag>\": \"<name>\",` whose first slot is the container's `tag` and whose second slot is the escaped name of the type; where that property is pushed to the member list inside named() itself, no member can have been pushed before it")
+    found = []
+    for ib, tpls, keep in Q.function_templates(crate, "types::named::named"):
+        for t in tpls:
+            for lit, args in S.format_calls(t.tokens):
+                if S.squash(S.unquote(lit) or "") == '"{}":"{}",':
+                    found.append((ib, tpls, t))
+    if not found:
+        nb = crate.body("types::named::named")
+        r.fail(prop, "struct-tag-shape named", "the tag property is not emitted as `\"<tag>\": \"<name>\",`", nb.file() if nb else None, nb.line() if nb else None)
+    for ib, tpls, t in found[:1]:
+        o0 = panics.operand_origin(ib, {"k": "copy", "pl": {"l": t.interps[0][1], "p": list(t.projs[0])}}) if t.interps else ""
+        slot0 = bool(re.search(r"StructAttr\.tag$", o0)) or o0.startswith("param")       # in a helper / closure the tag arrives as a parameter
+        org1 = origins(ib, t.interps[1][1], transparent=True, component=_comp(t.projs[1]), stop=[r"utils::escaped_name$"]) if len(t.interps) > 1 else []
+        slot1 = any(x["kind"] == "call" and fn_matches(x["t"], r"utils::escaped_name$") for x in org1) or (org1 and all(x["kind"] == "arg" for x in org1))
+        # order, when visible: the push of this template is not reachable from a push of a member template
+        first = None
+        pushes = [(blk, c) for blk, c in ib.calls() if not ib.is_cleanup(blk) and fn_matches(c, r"vec::Vec::<T, A>::push$") and "TokenStream" in (c.get("arg_tys") or ["", ""])[1]]
+        mine = [blk for blk, c in pushes if op_place(c["args"][1]) is not None and Q.stream_template(ib, op_place(c["args"][1])["l"], tpls) is t]
+        if mine:
+            others = [blk for blk, c in pushes if blk not in mine and op_place(c["args"][1]) is not None and
+                      (lambda tp: tp is not None and any(re.match(r"^(\\{\\})+: \\{\\},$", S.unquote(l2) or "") for l2, _ in S.format_calls(tp.tokens)))(Q.stream_template(ib, op_place(c["args"][1])["l"], tpls))]
+            first = not any(mine[0] in ib.reachable_from([ob]) for ob in others)
+        ok = slot0 and slot1 and first is not False
+        r.inst(fn=ib.path, tag_template='"{}": "{}",', first_slot=o0, second_slot_escaped=bool(slot1), pushed_before_members=first, ok=ok, where="%s:%s" % (t.file, t.line))
+        if not ok:
+            r.fail(prop, "struct-tag-shape named", "the tag property is not emitted first as `\"<tag>\": \"<name>\",` with the container's tag and the escaped type name", t.file, t.line)
+    r.floor = 1
+    return r
+
+
+def named_composition_rule(crate, prop, rule="C14.R7"):
+    r = Result(rule, "named() (helpers included): the text it declares for a struct is chosen from `{  }`, `{ fields }`, the flattened member(s) joined by ` & `, and `{ fields } & flattened`; own members are joined by a space and flattened ones by ` & `; inline_flattened() never strips the parentheses of a flattened member (only inline() may, for the lonely flattened member); both go through the `, } & { ` merge")
+    b = crate.ibody("types::named::named")
+    if b is None:
+        r.fail(prop, "anchor-missing named", "not found")
+        return r
+    tpls = Q.templates(b)
+
+    def classify(tp):
+        txt = " ".join(x for x in S.flat(Q.expanded(b, tp, tpls)) if isinstance(x, str))
+        if re.search(r'"\{ *\}" \. to_owned', txt):
+            return "empty-object"
+        if re.search(r'format ! \( "\{\{ \{\} \}\} & \{\}"', txt):
+            return "object&flattened"
+        if re.search(r'format ! \( "\{\{ \{\} \}\}"', txt):
+            return "object"
+        if "strip_prefix ( '(' )" in txt or "starts_with ( '(' )" in txt:
+            return "flattened-unparenthesised"
+        if re.search(r'join \( & \[.*\] , " & " \)', txt) and "format !" not in txt:
+            return "flattened"
+        return "?" + txt[:40]
+
+    def classes(local, proj, depth=0):
+        out = set()
+        for blk, sl, _ in _alternatives(b, local, proj0=proj or ()):
+            tp = Q.stream_template(b, sl, tpls)
+            if tp is None:
+                out.add("?")
+                continue
+            flat = [x for x in S.flat(tp.tokens) if isinstance(x, str)]
+            # a wrapper around another stream (`#x.replace(..)`, `#x`): look at what is wrapped
+            if len(tp.interps) >= 1 and flat[:2] == ["#", tp.interps[0][0]] and "TokenStream" in (tp.interps[0][2] or "") and depth < 4 and not re.search(r"format !|join|to_owned", " ".join(flat)):
+                out |= classes(tp.interps[0][1], tp.projs[0], depth + 1)
+            else:
+                out.add(classify(tp))
+        return out
+
+    got = {}
+    for blk in range(b.n):
+        for st in b.stmts(blk):
+            if st["k"] == "assign" and st["rv"]["k"] == "agg" and str(st["rv"].get("adt", "")).endswith("DerivedTS") and "fields" in st["rv"]:
+                names = st["rv"]["fields"]
+                for nm in ("inline", "inline_flattened"):
+                    if nm in names:
+                        op = st["rv"]["ops"][names.index(nm)]
+                        pl = op_place(op)
+                        if pl is None:
+                            continue
+                        l = pl["l"]
+                        if nm == "inline_flattened":
+                            for bb, i, d in M.real_defs(b, l):
+                                if i != "term" and d["rv"]["k"] == "agg" and d["rv"].get("variant") == "Some" and op_place(d["rv"]["ops"][0]) is not None:
+                                    l = op_place(d["rv"]["ops"][0])["l"]
+                        got.setdefault(nm, set()).update(classes(l, []))
+    need = {"inline": {"empty-object", "object", "object&flattened", "flattened", "flattened-unparenthesised"},
+            "inline_flattened": {"empty-object", "object", "object&flattened", "flattened"}}
+    for nm in ("inline", "inline_flattened"):
+        g = got.get(nm, set())
+        missing = sorted(need[nm] - g)
+        extra = sorted(x for x in g if x.startswith("?") and x != "?")
+        bad = nm == "inline_flattened" and "flattened-unparenthesised" in g
+        r.inst(fn=b.path, value=nm, forms=sorted(g), missing=missing, ok=not missing and not bad)
+        if not g:
+            r.fail(prop, "anchor-missing named.%s table" % nm, "the alternatives of DerivedTS.%s built by named() could not be found" % nm, b.file(), b.line())
+        elif missing or bad:
+            r.fail(prop, "named-composition %s" % nm, "named() builds %s from %s: %s" % (nm, sorted(g), ("missing " + ", ".join(missing)) if missing else "inline_flattened() must keep the parentheses of a flattened member"), b.file(), b.line())
+    txt_all = " ".join(t.text() for t in tpls)
+    ok = bool(re.search(r'join \( & \[[^\]]*\] , " " \)', txt_all)) and bool(re.search(r'join \( & \[[^\]]*\] , " & " \)', txt_all))
+    r.inst(field_separator_and_flatten_separator=ok)
+    if not ok:
+        r.fail(prop, "named-separators", "own fields must be joined by a space and flattened members by ` & `", b.file(), b.line())
+    r.floor = 3
+    return r
